@@ -943,6 +943,8 @@ impl StunClient {
                             transaction_id, event
                         );
                         events.push(event);
+                        // The transaction has finished, it is no longer outstanding
+                        self.transactions.remove(&transaction_id);
                     }
                 }
             } else {
